@@ -117,7 +117,33 @@ fn payload_range(input: &[u8], payload: &[u8]) -> (usize, usize) {
     }
 }
 
+thread_local! {
+    static ALIGN_BUF: std::cell::RefCell<Vec<u8>> = const { std::cell::RefCell::new(Vec::new()) };
+}
+
+/// Run `f` on a copy of `x` placed so that its first byte has a chosen address modulo 8. The residue is
+/// a function of the input (deterministic, so replay reproduces it). Buffers on a real bus are not
+/// word aligned; an implementation that processes words at a time may silently depend on alignment.
+/// Safe code only: the scratch Vec's base address is *measured* and the offset chosen accordingly.
+pub fn with_alignment<R>(x: &[u8], f: impl FnOnce(&[u8]) -> R) -> R {
+    let want = (crate::rng::hash_bytes(0xA11, &x[..x.len().min(16)]) as usize ^ x.len()) & 7;
+    ALIGN_BUF.with(|b| {
+        let mut b = b.borrow_mut();
+        if b.len() < x.len() + 16 {
+            b.resize(x.len() + 16, 0);
+        }
+        let base = b.as_ptr() as usize & 7;
+        let off = (want + 8 - base) & 7;
+        b[off..off + x.len()].copy_from_slice(x);
+        f(&b[off..off + x.len()])
+    })
+}
+
 pub fn decode(ctx: &MCTPSMBusContext, x: &[u8]) -> DecOut {
+    with_alignment(x, |x| decode_raw(ctx, x))
+}
+
+fn decode_raw(ctx: &MCTPSMBusContext, x: &[u8]) -> DecOut {
     match trap(|| ctx.decode_packet(x)) {
         Err(p) => DecOut::Panic(p),
         Ok(Ok((mt, payload))) => {
@@ -173,6 +199,10 @@ impl ProcOut {
 }
 
 pub fn process(ctx: &MCTPSMBusContext, x: &[u8], rb: &mut [u8]) -> ProcOut {
+    with_alignment(x, |x| process_raw(ctx, x, rb))
+}
+
+fn process_raw(ctx: &MCTPSMBusContext, x: &[u8], rb: &mut [u8]) -> ProcOut {
     match trap(|| ctx.process_packet(x, rb)) {
         Err(p) => ProcOut::Panic(p),
         Ok(Ok(((mt, payload), resp))) => {
@@ -204,6 +234,10 @@ impl LenOut {
 }
 
 pub fn get_length(ctx: &MCTPSMBusContext, x: &[u8]) -> LenOut {
+    with_alignment(x, |x| get_length_raw(ctx, x))
+}
+
+fn get_length_raw(ctx: &MCTPSMBusContext, x: &[u8]) -> LenOut {
     match trap(|| ctx.get_length(x)) {
         Err(p) => LenOut::Panic(p),
         Ok(Ok(n)) => LenOut::Ok(n),
